@@ -120,6 +120,24 @@ Definition secrets_of (data : tree) : list str :=
   (match tget (k "BIP85") data with Ok m => leaves m | Err => [] end) ++
   sec_section "BIP44"%string ++ sec_section "BIP49"%string ++ sec_section "BIP84"%string.
 
+(* the public positions of an unfiltered generate()-shaped tree: path and pub of each BIP section, every row minus its last column *)
+Definition public_of (data : tree) : list str :=
+  let pub_section (key : string) :=
+    match tget (k key) data with
+    | Ok v =>
+        (match bind (tget (k "account_extended_keys") v) (tget (k "path")) with Ok t => leaves t | Err => [] end) ++
+        (match bind (tget (k "account_extended_keys") v) (tget (k "pub")) with Ok t => leaves t | Err => [] end) ++
+        (match tget (k "groups") v with
+         | Ok (TList rows) => flat_map (fun r => match r with TList l => flat_map leaves (removelast l) | _ => [] end) rows
+         | _ => [] end)
+    | Err => [] end in
+  pub_section "BIP44"%string ++ pub_section "BIP49"%string ++ pub_section "BIP84"%string.
+
+Fixpoint prefixb (p s : str) : bool :=
+  match p, s with [], _ => true | x :: p', y :: s' => (x =? y) && prefixb p' s' | _ :: _, [] => false end.
+Fixpoint is_sub (p s : str) : bool :=
+  prefixb p s || match s with [] => false | _ :: s' => is_sub p s' end.
+
 Definition prv_versions : list Z := [0x0488ADE4; 0x049d7878; 0x04b2430c; 0x04358394; 0x044a4e28; 0x045f18bc].
 (* does a string decode (Base58Check, any checksum oracle) to a private-key encoding? *)
 Definition looks_private (sha : bytes -> bytes) (s : str) : bool :=
@@ -144,7 +162,12 @@ Inductive case :=
 (* Wasabi export of a wallet re-imported from an extended PRIVATE key string *)
 | WasX (o : oracles) (xprv : str) (ob : res tree)
 (* private-data requests on a watch-only wallet: observed dict {watch_only, bip85, xprv, keys, row} for the node at `sub` *)
-| WatchPriv (o : oracles) (xpub : str) (sub : list Z) (purpose : Z) (ob : res tree).
+| WatchPriv (o : oracles) (xpub : str) (sub : list Z) (purpose : Z) (ob : res tree)
+(* node_extended_keys on a node at an arbitrary path of a wallet of either network (incl. foreign coin types) *)
+| NodeKeys (o : oracles) (w : wspec) (path : list Z) (ob : res tree)
+(* the command line with --paranoia: the secrets of the wallet (for the requested and for the default account / interval)
+   and everything the program wrote to stdout and to its --file *)
+| ParCli (secrets : list str) (publics : list str) (out : str).
 
 Definition watch_tree (o : oracles) (w : wallet) (nd : node) : res tree :=
   let sha := sha256 o in let h := rmd160 sha in
@@ -188,6 +211,22 @@ Definition check_case (c : case) : Z :=
             && match tget (k "row") t with Ok (TList l) => match rev l with TNone :: _ => true | _ => false end | _ => false end
             (* and nothing in the whole answer decodes to a private-key encoding *)
             && forallb (fun l => negb (looks_private (sha256 o) l)) (leaves t)
+        | Err => true
+        end in
+      verdict agrees prop
+  | ParCli secrets publics out =>
+      verdict true (forallb (fun x => match x with [] => true | _ => negb (is_sub x out) end) secrets
+                    && forallb (fun x => is_sub x out) publics)
+  | NodeKeys o ws path ob =>
+      let m := do w <- mk_wallet o ws; do nd <- derive_path C (hm o) (w_master w) path; node_extended_keys C (sha o) (h160 o) A w nd in
+      let agrees := beq_res beq_tree m ob in
+      let flavour := match path with
+                     | p :: _ => if p =? 49 + H then 1 else if p =? 84 + H then 2 else 0
+                     | [] => 0 end in
+      let ver (t : res tree) : Z := match b58dec o (tstr t) with Ok b => be2z (firstn 4 b) | Err => -2 end in
+      let prop :=
+        match ob with
+        | Ok t => (ver (tget (k "pub") t) =? slip 1 flavour (ws_testnet ws)) && (ver (tget (k "prv") t) =? slip 0 flavour (ws_testnet ws))
         | Err => true
         end in
       verdict agrees prop
@@ -242,6 +281,8 @@ Definition check_case (c : case) : Z :=
             forallb (fun l => negb (existsb (beq_bytes l) secrets) && negb (looks_private sha l)) ls
             (* every kept public leaf is a leaf of the unfiltered data *)
             && forallb (fun l => existsb (beq_bytes l) (leaves data)) ls
+            (* and no public datum is lost *)
+            && forallb (fun l => existsb (beq_bytes l) ls) (public_of data)
         end in
       verdict agrees prop
   | Was o ws ob =>
